@@ -39,7 +39,7 @@ SUB_TRUST = ["sync.RWMutex, sync/atomic and channels behave as the Go memory mod
 HUB_STAGE = {"kind": "cases", "name": "hub-histories", "driver": "HUBSEQ", "parallel": 8, "n": {"quick": 400, "thorough": 4000}}
 HUB_RULE = ("handler-level sequential histories on the real hub (both transports; retention size 0/2/3; subscription events on/off): 6-20 operations "
             "drawn from a client that stops reading / reads again (its handler blocks in Write), bursts of publishes (every 8th case: 1000, 1001, 1002 or 1005 "
-            "updates to a stalled subscriber while another one keeps reading, so that the hub cuts the slow one off), publish (1-2 topics over {a,b,c}, private or not), subscribe (selectors over {a,b,c,*}, anonymous / claim [a|b] / claim [*], "
+            "updates to a stalled subscriber while another one keeps reading, so that the hub cuts the slow one off), publish (1-2 topics over {a,b,c}, private or not - the private field present with a value among on / empty / 0 / false / 1), subscribe (selectors over {a,b,c,*}, anonymous / claim [a|b] / claim [*], "
             "Last-Event-ID none / earliest / a published id / unknown), client leaves, Hub.Stop, restart on the same history file; observed: each "
             "stream's status, Last-Event-ID header, ids received, whether the hub ended it; every publish's status; the history file read back; "
             "subscription events in it; the Prometheus gauge and counters and the number of listed subscribers after every operation. Each case is replayed through Model/Hub.v's wstep "
@@ -151,8 +151,8 @@ PROPS = {
     "C20": {"stages": [HUB_STAGE], "rule": HUB_RULE, "trusted": HUB_TRUST, "assumptions": []},
     "C13": {
         "binaries": ["verifh", "verifs"],
-        "stages": SUB_STAGES + [HUB_STAGE],
-        "rule": SUB_RULE + " hub-histories: " + HUB_RULE,
+        "stages": SUB_STAGES + [TRANS_STAGE, HUB_STAGE],
+        "rule": SUB_RULE + TRANS_RULE + " hub-histories: " + HUB_RULE,
         "trusted": SUB_TRUST + ["wall-clock time is not modelled: 'bounded' means a bounded number of steps of the publisher plus the critical sections ahead of it"],
         "assumptions": ["Ready is called once per subscriber (AddSubscriber does)"],
     },
@@ -210,7 +210,7 @@ PROPS = {
     "C10": {
         "stages": [{"kind": "cases", "name": "retention", "driver": "C10", "n": {"quick": 600, "thorough": 6000}}],
         "rule": "publish sequences (1-40) on a real BoltTransport with size 0-12, cleanup frequency in {0, 0.3, 0.5, 0.9, 1}, payloads 10 B-8 KiB "
-                "(inline bucket / one leaf / several pages), close+reopen between publishes with probability 0.15; after every publish the retained ids are "
+                "(inline bucket / one leaf / several pages), close+reopen between publishes with probability 0.15, a publish the database refuses (40000-byte id) before 8% of them; after every publish the retained ids are "
                 "read back through an 'earliest' replay; each step must be one of the model's two outcomes (cleanup ran / did not run) and satisfy the window "
                 "predicate. non-trivial = more publishes than size (size>0) or a cleanup that had to delete several keys at once",
         "trusted": ["bbolt by contract (ordered map, durable per-bucket sequence); the trigger's random draw is observed, not predicted"],
